@@ -152,6 +152,9 @@ def oracle_roundtrip(ctx, alg, desc, form, mv, sup, rng):
     m2 = mv.map(lambda k, v: v + k)
     if dict(m2.items()) != {k: v + k for k, v in got_items.items()}:
         ctx.violation('map2', {**desc, 'form': form}, None, dict(m2.items()), key='roundtrip:map')
+    f0 = mv.filter()
+    if dict(f0.items()) != {k: v for k, v in got_items.items() if v} or any(type(a) is not type(b) for a, b in zip(f0.values(), [v for v in mv.values() if v])):
+        ctx.violation('filter', {**desc, 'form': form, 'filter': 'no argument'}, {k: v for k, v in got_items.items() if v}, dict(f0.items()), key='roundtrip:filter:default')
     fl = mv.filter(lambda v: v > 2)
     if dict(fl.items()) != {k: v for k, v in got_items.items() if v > 2}:
         ctx.violation('filter', {**desc, 'form': form}, None, dict(fl.items()), key='roundtrip:filter')
@@ -166,7 +169,7 @@ def gen_forms(rng, alg, graded, n):
     val = lambda: rng.randint(1, 9)
     for _ in range(n):
         kind = rng.choice(['kv', 'kv', 'kv-names', 'mapping', 'kw', 'kw', 'grades-list', 'grades-list', 'name', 'name-keys',
-                           'mismatch', 'outside-grades', 'bad-grades', 'full-list', 'ctor', 'ctor', 'kw-bad'])
+                           'mismatch', 'outside-grades', 'bad-grades', 'full-list', 'ctor', 'ctor', 'kw-bad', 'oob-key'])
         if kind in ('kv', 'kv-names', 'mapping', 'mismatch'):
             if graded and rng.random() < 0.6:
                 gs = sorted(rng.sample(range(d + 1), rng.randint(1, min(2, d + 1))))
@@ -239,6 +242,21 @@ def gen_forms(rng, alg, graded, n):
             else:
                 gs = [(gs[0] + 1) % (d + 1)]
             forms.append({'keys': ks, 'values': [val() for _ in ks], 'grades': gs})
+        elif kind == 'oob-key':
+            # an integer key that is no blade of the algebra (>= 2^d), alone or next to valid keys, with or without a
+            # grades declaration that matches its bit count
+            ks = rng.sample(range(N), rng.randint(0, min(N, 3)))
+            oob = rng.choice([N, N + 1, N + 2, 2 * N, 3 * N, 2 * N + 1])
+            ks.insert(rng.randrange(len(ks) + 1), oob)
+            f = {'keys': ks, 'values': [val() for _ in ks]}
+            r = rng.random()
+            if r < 0.4:
+                f['grades'] = sorted({bin(k).count('1') for k in ks if bin(k).count('1') <= d})
+                if not f['grades']:
+                    del f['grades']
+            if r > 0.8:
+                f = {'mapping': list(zip(ks, f['values']))}
+            forms.append(f)
         elif kind == 'bad-grades':
             gs = rng.choice([[d + 1], [-1], [0, d + 2], [1, 0], [1, 1]])
             forms.append({'values': [val()], 'grades': gs})
@@ -278,6 +296,29 @@ def expected_ctor_grades(ctor, d):
     return gs
 
 
+def simp_func_pass(ctx):
+    """filter() without an argument on algebras with a custom simp_func (predicate style and value style): it selects by
+    simp_func and reflects exactly the supplied coefficients"""
+    from kingdon import MultiVector
+    rng = ctx.rng
+    for nm, sf in (('predicate', lambda v: abs(v) > 1e-12), ('rounding', lambda v: round(v, 3)), ('identity', lambda v: v)):
+        alg = make_algebra([1, 1, 1], simp_func=sf)
+        for _ in range(6):
+            ks = rng.sample(range(8), rng.randint(1, 5))
+            vs = [rng.choice([2.5, -4.0, 0.0, 1e-15, 7.25, -0.0004, 3.0]) for _ in ks]
+            mv = alg.multivector(keys=tuple(ks), values=list(vs))
+            exp = {k: v for k, v in zip(ks, vs) if sf(v)}
+            case = {'simp_func': nm, 'keys': ks, 'values': vs}
+            ctx.case(case, tag='filter:simp_func')
+            try:
+                got = dict(mv.filter().items())
+            except Exception as e:
+                ctx.violation('filter', case, exp, repr(e)[:200], key=f'roundtrip:filter:simp_func:{nm}:raises')
+                continue
+            if got != exp or any(type(got[k]) is not float for k in got):
+                ctx.violation('filter', case, exp, got, key=f'roundtrip:filter:simp_func:{nm}')
+
+
 def run(ctx):
     ctx.rule = ('constructor calls: forms {keys+values (ints / names / mixed), mapping, keyword blades in every spelling, grade-restricted '
                 'value lists, full lists, by name, convenience constructors, malformed variants (length mismatch, keys outside grades, '
@@ -297,6 +338,7 @@ def run(ctx):
         cfgs.append(([rng.choice((1, -1, 0)) for _ in range(d)], None, random_custom_basis(rng, d), rng.random() < 0.3))
     cfgs.append(([1, 1], 0, None, False))
     cfgs.append(([1, 1, 1], 2, None, False))
+    simp_func_pass(ctx)
     lines, plan = [], []
     # several algebras are alive at the same time and are used alternately (shared-state defects)
     algs = [(make_algebra(sig, start, basis, graded=graded), sig, start, basis, graded) for sig, start, basis, graded in cfgs]
@@ -338,6 +380,8 @@ def run(ctx):
                         ctx.violation('ctor-grades', {**desc, 'form': form}, list(expk), list(ks), key='ctor:grades')
                 elif any(bin(k).count('1') not in gr for k in ks):
                     ctx.violation('ctor-grades', {**desc, 'form': form}, gr, list(ks), key='ctor:grades')
+            if any(isinstance(k, int) and not (0 <= k < 2 ** alg.d) for k in ks):
+                ctx.violation('key-outside-algebra-accepted', {**desc, 'form': form}, 'an exception: the key is no blade of the algebra', real, key='inconsistent:oob-key')
             if form.get('keys') is not None and form.get('values') is not None and len(form['keys']) != len(form['values']):
                 ctx.violation('length-mismatch-accepted', {**desc, 'form': form}, 'TypeError', real, key='inconsistent:length')
         elif form.get('ctor') and err:
